@@ -1,5 +1,6 @@
 import Ufo2ftModel.Drv.Util
 import Ufo2ftModel.Spec.C08
+import Ufo2ftModel.Spec.C08Env
 namespace Ufo2ft.Drv.C08
 open Lean Ufo2ft.Drv Ufo2ft.C08
 
@@ -245,8 +246,49 @@ def vfinfo (req : Json) : R Reply := do
     ok := ok && holdsInfoStable before after && holdsOverride before ov temp
   return { model := Json.mkObj models, holds := ok }
 
+def asPt (j : Json) : R (Q × Q) := asPair asRat asRat j
+def ptJ (p : Q × Q) : Json := pairJ ratJ ratJ p
+
+/-- op "created": getAttrWithFallback(info, "openTypeHeadCreated") under two wall clocks.  in: `explicit` (six numbers | null),
+`env` {set, value | null = a text int() rejects}, `now` [n₁, n₂]; obs: a, b = six numbers | null (exception) -/
+def created (req : Json) : R Reply := do
+  let i ← field req "in"
+  let explicit ← asOpt (asList asNat) (← field i "explicit")
+  let e ← field i "env"
+  let env : Epoch ← (do
+    if !(← asBool (← field e "set")) then return Epoch.unset
+    match ← asOpt asNat (← field e "value") with
+    | none => return Epoch.invalid
+    | some v => return Epoch.value v)
+  let now ← asList asNat (← field i "now")
+  let o ← field req "obs"
+  let oa ← asOpt (asList asNat) (← field o "a")
+  let ob ← asOpt (asList asNat) (← field o "b")
+  let m (n : Nat) : Json := optJ (listJ natJ) (headCreated explicit env n).toOption
+  return { model := ab (m (now.getD 0 0)) (m (now.getD 1 0)), holds := holdsCreated explicit env oa ob }
+
+/-- op "closest": propagateAnchors._bounds / _component_closest_to_origin on the components of a mark-only composite, built with
+defcon and with ufoLib2.  in: `exact` = the exact lower-left corner of every component (closed form, computed by the harness);
+obs: lib ↦ {bounds, chosen} -/
+def closest (req : Json) : R Reply := do
+  let exact ← asList asPt (← field (← field req "in") "exact")
+  let o ← field req "obs"
+  let od ← field o "defcon"
+  let ou ← field o "ufoLib2"
+  let bd ← asList asPt (← field od "bounds")
+  let bu ← asList asPt (← field ou "bounds")
+  let cd ← asOpt asNat (← field od "chosen")
+  let cu ← asOpt asNat (← field ou "chosen")
+  let m (lib : BoundsLib) : Json :=
+    Json.mkObj [("bounds", listJ ptJ exact), ("chosen", optJ natJ (closestToOrigin (fun _ => exact) lib))]
+  let okc (c : Option Nat) : Bool := match c with | some c => holdsClosest exact c | none => exact.isEmpty
+  return { model := Json.mkObj [("defcon", m .defcon), ("ufoLib2", m .ufoLib2)],
+           holds := holdsBounds exact bd bu && okc cd && okc cu && cd == cu }
+
 def handle (op : String) (req : Json) : R Reply :=
   match op with
+  | "created" => created req
+  | "closest" => closest req
   | "digests" => digests req
   | "kernwrite" => kernwrite req
   | "register" => register req
